@@ -1290,7 +1290,11 @@ class DocutilsRenderer(RendererProtocol):
 
         for key, value in data.items():
             if not isinstance(value, str | int | float | date | datetime):
-                value = json.dumps(value)
+                try:
+                    value = json.dumps(value, default=str)
+                except (TypeError, ValueError):
+                    # e.g. non-string mapping keys, or recursive YAML anchors
+                    value = str(value)
             value = str(value)
             body = nodes.paragraph()
             body.source, body.line = self.document["source"], line
